@@ -272,6 +272,9 @@ def judge_merchants(rec, rf, rnd, nedits, ncorr):
         if c is None:
             break
         t3, cls, (lo, hi) = c
+        if rnd.random() < .4:
+            k = rnd.randint(1, 3)
+            t3, lo, hi = rnd.choice(['\n', '\n', '  \n']) * k + t3, lo + k, hi + k
         rec.case()
         try:
             m_obs(t3)
@@ -330,6 +333,9 @@ def judge_views(rec, rnd, nedits, ncorr):
             rec.interesting(['v', core.digest(text), desc, core.digest(t2)])
     for _ in range(ncorr):
         t3, cls, (lo, hi) = corrupt_views(pre, blocks, rnd)
+        if rnd.random() < .4:
+            k = rnd.randint(1, 3)        # the file begins with blank lines: they count as lines
+            t3, lo, hi = rnd.choice(['\n', '\n', '  \n']) * k + t3, lo + k, hi + k
         rec.case()
         try:
             v_obs(t3)
